@@ -150,4 +150,44 @@ def activatesFunctionMacro (after : List PTok) : Bool :=
 /-- `apply_single_macro`, `num_params == 0`: is the single argument `arg` accepted as "no arguments"? -/
 def acceptsEmptyArgument (arg : List PTok) : Bool := (trimWhitespace arg).isEmpty
 
+/-! ### directive recognition (`preprocess_included_file`, preprocess/src/preprocess.rs)
+
+The loop that drives the `TokenStream` keeps a four-state machine per line: a `#` that is the first
+non-whitespace token of a line starts a command, the first non-whitespace token after it is the command name,
+an `Endline` ends the command; everything else is normal text.  The arms are re-read from the source on every run
+(`Gen.SourceMapTables.hashStartsCommandAtStartOfLine`, `startOfLineSkipsAllWhitespace`,
+`commandNameIsFirstNonWhitespace`, `endlineEndsCommand`, `endlineStartsLine`, `otherTokensArePushed`). -/
+
+/-- the token kinds the state machine distinguishes; `ws` = `Whitespace`, `Comment`, `PhysicalEndline` -/
+inductive DTok where
+  | hash | endline | ws | other (id : Nat)
+  deriving DecidableEq, Repr
+
+inductive DState where
+  | startOfLine | commandStart | commandContents | normal
+  deriving DecidableEq, Repr
+
+/-- what the rest of the preprocessor is handed, whitespace left out: normal tokens, and commands with their tokens -/
+inductive DItem where
+  | tok (t : DTok) | command (ts : List DTok)
+  deriving DecidableEq, Repr
+
+/-- the state machine; `cmd` = tokens of the command being read (newest first); `wsKeepsStart` = the arm
+`(tok, StartOfLine)` leaves the state alone for every whitespace token (`startOfLineSkipsAllWhitespace`) -/
+def dscan (wsKeepsStart : Bool) : DState → List DTok → List DTok → List DItem
+  | _, cmd, [] => cmd.reverse.map .tok
+  | .startOfLine, _, .hash :: r => dscan wsKeepsStart .commandStart [] r
+  | .startOfLine, _, .endline :: r => .tok .endline :: dscan wsKeepsStart .startOfLine [] r
+  | .startOfLine, _, .ws :: r => dscan wsKeepsStart (if wsKeepsStart then .startOfLine else .normal) [] r
+  | .startOfLine, _, .other n :: r => .tok (.other n) :: dscan wsKeepsStart .normal [] r
+  | .commandStart, _, .ws :: r => dscan wsKeepsStart .commandStart [] r
+  | .commandStart, _, .endline :: r => .tok .endline :: dscan wsKeepsStart .startOfLine [] r
+  | .commandStart, _, t :: r => dscan wsKeepsStart .commandContents [t] r
+  | .commandContents, cmd, .endline :: r => .command cmd.reverse :: dscan wsKeepsStart .startOfLine [] r
+  | .commandContents, cmd, .ws :: r => dscan wsKeepsStart .commandContents cmd r
+  | .commandContents, cmd, t :: r => dscan wsKeepsStart .commandContents (t :: cmd) r
+  | .normal, _, .endline :: r => .tok .endline :: dscan wsKeepsStart .startOfLine [] r
+  | .normal, _, .ws :: r => dscan wsKeepsStart .normal [] r
+  | .normal, _, t :: r => .tok t :: dscan wsKeepsStart .normal [] r
+
 end RsslVerif.Model.Trivia
